@@ -28,7 +28,7 @@ func init() {
 			"Output is re-parsed with encoding/json as the syntax/shape referee and the decoded value is compared with the harness's model of the forced losses. non-trivial = geometry with >= 2 nodes, Z/M, or an empty member; grammar documents and features always; distinct by WKB / document text",
 		Assumptions:      []string{"forced losses modelled: M dropped; empty Points deleted from MultiPoints; Z kept iff the document contains at least one position; everything else bit-identical", "grammar documents with nulls or missing members may decode or fail; only position-length and type rules are judged strictly"},
 		MinNontrivial:    500,
-		RequiredMonitors: []string{"syntax", "shape", "roundtrip-image", "concrete-type", "grammar-doc", "feature", "feature-collection", "concrete-entry"},
+		RequiredMonitors: []string{"syntax", "shape", "roundtrip-image", "concrete-type", "grammar-doc", "feature", "feature-collection", "receiver-reuse", "concrete-entry"},
 		Run:              runAll,
 	})
 }
@@ -594,6 +594,39 @@ func featureCase(k *run.K) {
 		d := featureEq(f, back)
 		k.Check("feature", d == "", "Feature round trip: %s", d)
 	}
+	// a receiver that already holds another feature is overwritten completely, and a copy taken of the
+	// earlier value is not affected by the later decode
+	{
+		prev := mkFeature(k.Rng)
+		var pb []byte
+		var e0, e1 error
+		var reused, kept geom.GeoJSONFeature
+		if !k.Lib("receiver-reuse", func() {
+			pb, e0 = json.Marshal(prev)
+			if e0 == nil {
+				e0 = json.Unmarshal(pb, &reused)
+			}
+			kept = reused
+			e1 = json.Unmarshal(b, &reused)
+		}) && e0 == nil {
+			if k.Check("receiver-reuse", e1 == nil, "Feature unmarshal into a used receiver: %v", e1) {
+				d := featureEq(f, reused)
+				k.Check("receiver-reuse", d == "", "Feature decoded into a receiver that held another feature: %s\n earlier %s\n later   %s", d, clip(string(pb)), clip(string(b)))
+				d = featureEq(prev, kept)
+				k.Check("receiver-reuse", d == "", "a copy of the earlier Feature changed when the variable was decoded into again: %s", d)
+			}
+		}
+		// same for a Geometry receiver
+		var gr geom.Geometry
+		var gb []byte
+		if !k.Lib("receiver-reuse", func() {
+			gb, _ = json.Marshal(f.Geometry)
+			e0 = json.Unmarshal([]byte(`{"type":"LineString","coordinates":[[1,2,3],[4,5,6]]}`), &gr)
+			e1 = json.Unmarshal(gb, &gr)
+		}) {
+			k.Check("receiver-reuse", e0 == nil && e1 == nil && model.Equal(image(treeOf(f.Geometry)), treeOf(gr)), "Geometry decoded into a used receiver: %v %v %s", e0, e1, model.Diff(image(treeOf(f.Geometry)), treeOf(gr)))
+		}
+	}
 	// collection
 	fc := geom.GeoJSONFeatureCollection{f}
 	for i := k.Rng.Intn(3); i > 0; i-- {
@@ -625,6 +658,18 @@ func featureCase(k *run.K) {
 		}
 	}
 	k.Check("feature-collection", ok, "FeatureCollection round trip: err=%v %s", err, d)
+	// a collection receiver that already holds features
+	used := geom.GeoJSONFeatureCollection{mkFeature(k.Rng), mkFeature(k.Rng), mkFeature(k.Rng), mkFeature(k.Rng)}
+	if !k.Lib("receiver-reuse", func() { err = json.Unmarshal(cb, &used) }) {
+		ok = err == nil && len(used) == len(fc)
+		d = ""
+		for i := 0; ok && i < len(fc); i++ {
+			if d = featureEq(fc[i], used[i]); d != "" {
+				ok = false
+			}
+		}
+		k.Check("receiver-reuse", ok, "FeatureCollection decoded into a used receiver: err=%v len %d vs %d %s", err, len(used), len(fc), d)
+	}
 	// wrong top-level types are rejected
 	var f2 geom.GeoJSONFeature
 	var c2 geom.GeoJSONFeatureCollection
